@@ -1,5 +1,6 @@
 import Pfb.PyCore.Json
 import Pfb.PyCore.Exec
+import Pfb.PyCore.Unused
 open Lean Pfb Pfb.Drv Pfb.PyCore
 
 def rval (j : Json) : Except String RVal := do
@@ -28,6 +29,12 @@ def handle (j : Json) : Except String Json := do
     let fx := J.fixes ((j.getObjVal? "fixes").toOption.getD Json.null)
     let st := analyzeFx fx reg builtins ns prog
     pure (Json.mkObj [("missing", strsJ (sortedSet (st.missing.map (·.name))))])
+  | "unused" =>
+    let prog ← J.stmts (← jobj j "prog")
+    let builtins ← J.scope (← jobj j "builtins")
+    let fx := J.fixes ((j.getObjVal? "fixes").toOption.getD Json.null)
+    let u := findUnused fx builtins prog
+    pure (Json.mkObj [("unused", Json.arr (u.map (fun p => Json.arr #[natJ p.1, natJ p.2])).toArray)])
   | "exec" =>
     let body ← J.stmts (← jobj j "body")
     let calls ← J.stmts (← jobj j "calls")
